@@ -1939,47 +1939,8 @@ def RecoverIsPrefixFullOld (rec : Option Store → Bytes → Except RecErr Store
     FullEq r (specRun [] (ops.take k)) ∧
     ∀ a, a ≤ ops.length → (logBytes crc enc (runOpsOld Store.empty (ops.take a)).1).length ≤ n → a ≤ k
 
-/-- The crash model of `Reach` without the two crash points "snapshot in place, checkpoint marker
-    absent or incomplete" (for those the full-image statement is not proved; the metadata-map
-    statement is: `recover_then_write`, `checkpoint_crash_safe`). -/
-inductive ReachF (crc : Bytes → Nat) (enc : Entry → Bytes) (dec : Bytes → Option Entry) :
-    Option Store → Bytes → Trace → Prop where
-  | init : ReachF crc enc dec none [] []
-  | round {snap f tr} (mem0 : Store) (ops : List Op) (acked n : Nat) :
-      ReachF crc enc dec snap f tr →
-      recover crc dec snap f = .ok mem0 →
-      Fits enc (runOps mem0 ops).1 →
-      (openRepair f).length ≤ n →
-      acked ≤ ops.length →
-      (openRepair f ++ logBytes crc enc (runOps mem0 (ops.take acked)).1).length ≤ n →
-      ReachF crc enc dec snap
-        ((openRepair f ++ logBytes crc enc (runOps mem0 ops).1).take n) (tr ++ [(ops, acked)])
-  | ckptMarked {snap f tr} (mem0 : Store) (ops : List Op) (id : Nat) :
-      ReachF crc enc dec snap f tr →
-      recover crc dec snap f = .ok mem0 →
-      Fits enc (runOps mem0 ops).1 →
-      (enc (.checkpoint id)).length < U32 →
-      ReachF crc enc dec (some (runOps mem0 ops).2)
-        (openRepair f ++ logBytes crc enc (runOps mem0 ops).1 ++ encodeRec crc (enc (.checkpoint id)))
-        (tr ++ [(ops, ops.length)])
-  | ckptDone {snap f tr} (mem0 : Store) (ops : List Op) :
-      ReachF crc enc dec snap f tr →
-      recover crc dec snap f = .ok mem0 →
-      Fits enc (runOps mem0 ops).1 →
-      ReachF crc enc dec (some (runOps mem0 ops).2) [] (tr ++ [(ops, ops.length)])
-
-section reachF
+section rounds
 variable {crc : Bytes → Nat} {enc : Entry → Bytes} {dec : Bytes → Option Entry}
-
-theorem reachF_reach {snap : Option Store} {f : Bytes} {tr : Trace}
-    (h : ReachF crc enc dec snap f tr) : Reach crc enc dec snap f tr := by
-  induction h with
-  | init => exact .init
-  | round mem0 ops acked n _ hr hfit hn hacked hack ih => exact .round mem0 ops acked n ih hr hfit hn hacked hack
-  | ckptMarked mem0 ops id _ hr hfit hid ih =>
-    have := Reach.ckptCrash mem0 ops id (encodeRec crc (enc (.checkpoint id))).length ih hr hfit hid
-    rwa [List.take_length] at this
-  | ckptDone mem0 ops _ hr hfit ih => exact .ckptDone mem0 ops ih hr hfit
 
 /-- what recovery computes after a round, in terms of the store the round started from -/
 theorem recover_round (hc : CodecOK crc enc dec) {snap : Option Store} {f : Bytes} {H : List Op}
@@ -2007,76 +1968,7 @@ theorem recover_marked (hc : CodecOK crc enc dec) (L : Store) (R : List Entry) (
   rw [logBytes_append, logBytes_singleton, afterLastCkpt_append_ckpt] at h
   exact h
 
-theorem reachF_good (hc : CodecOK crc enc dec) {snap : Option Store} {f : Bytes} {tr : Trace}
-    (h : ReachF crc enc dec snap f tr) : ∀ r, recover crc dec snap f = .ok r → Good r := by
-  induction h with
-  | init =>
-    intro r hr
-    rw [recover_nil] at hr
-    injection hr with hr
-    subst hr
-    exact good_empty
-  | @round snap' f' tr' mem0 ops acked n hprev hr hfit hn _ _ ih =>
-    intro r hr'
-    obtain ⟨H, -, hinv⟩ := reach_inv hc (reachF_reach hprev)
-    obtain ⟨i, hi⟩ := recover_round hc hinv mem0 hr ops n hfit hn
-    rw [hi] at hr'
-    injection hr' with hr'
-    subst hr'
-    have hg := ih mem0 hr
-    exact good_replay_take hg hg (sim_refl mem0) ops i
-  | @ckptMarked snap' f' tr' mem0 ops id hprev hr hfit hid ih =>
-    intro r hr'
-    obtain ⟨H, -, hinv⟩ := reach_inv hc (reachF_reach hprev)
-    obtain ⟨S, hopen, hSfit, hSno, -, -⟩ := inv_open hc hinv hr
-    have hplain := runOps_plain mem0 ops
-    rw [hopen, ← logBytes_append, recover_marked hc _ _ id (hSfit.append hfit)
-      (hSno.append (fun e he => (hplain e he).1)) hid] at hr'
-    injection hr' with hr'
-    subst hr'
-    exact good_runOps (ih mem0 hr) ops
-  | ckptDone mem0 ops _ hr _ ih =>
-    intro r hr'
-    rw [recover_nil] at hr'
-    injection hr' with hr'
-    subst hr'
-    exact good_runOps (ih mem0 hr) ops
-
-theorem reachF_classed (hc : CodecOK crc enc dec) {snap : Option Store} {f : Bytes} {tr : Trace}
-    (h : ReachF crc enc dec snap f tr) : ∀ r, recover crc dec snap f = .ok r → Classed r := by
-  induction h with
-  | init =>
-    intro r hr
-    rw [recover_nil] at hr
-    injection hr with hr
-    subst hr
-    exact classed_empty
-  | @round snap' f' tr' mem0 ops acked n hprev hr hfit hn _ _ ih =>
-    intro r hr'
-    obtain ⟨H, -, hinv⟩ := reach_inv hc (reachF_reach hprev)
-    obtain ⟨i, hi⟩ := recover_round hc hinv mem0 hr ops n hfit hn
-    rw [hi] at hr'
-    injection hr' with hr'
-    subst hr'
-    exact classed_replay (ih mem0 hr) _ (fun e he => runOps_entryOk mem0 ops e (List.mem_of_mem_take he))
-  | @ckptMarked snap' f' tr' mem0 ops id hprev hr hfit hid ih =>
-    intro r hr'
-    obtain ⟨H, -, hinv⟩ := reach_inv hc (reachF_reach hprev)
-    obtain ⟨S, hopen, hSfit, hSno, -, -⟩ := inv_open hc hinv hr
-    have hplain := runOps_plain mem0 ops
-    rw [hopen, ← logBytes_append, recover_marked hc _ _ id (hSfit.append hfit)
-      (hSno.append (fun e he => (hplain e he).1)) hid] at hr'
-    injection hr' with hr'
-    subst hr'
-    exact classed_runOps (ih mem0 hr) ops
-  | ckptDone mem0 ops _ hr _ ih =>
-    intro r hr'
-    rw [recover_nil] at hr'
-    injection hr' with hr'
-    subst hr'
-    exact classed_runOps (ih mem0 hr) ops
-
-end reachF
+end rounds
 
 /-! #### log rotation -/
 
